@@ -88,10 +88,13 @@ def run(unit, only=None, timeout=1500):
         for ln in out.split("\n"):
             i = ln.find("WITNESS {")
             if i >= 0:
+                raw = ln[i + len("WITNESS "):]
                 try:
-                    ws_found.append(json.loads(ln[i + len("WITNESS "):]))
+                    ws_found.append(json.loads(raw))
                 except Exception:
-                    pass
+                    # a failing input whose description is not valid JSON is STILL a failing input
+                    mfn = re.search(r'"fn":\s*"([^"]+)"', raw)
+                    ws_found.append({"fn": mfn.group(1) if mfn else "?", "observed": raw[:400], "unparsed": True})
         stats = []
         for ln in out.split("\n"):
             i = ln.find("STATS {")
@@ -104,6 +107,8 @@ def run(unit, only=None, timeout=1500):
         info = "witness driver ran %s test fn(s); %d failing input(s)" % (ran.group(1) if ran else "?", len(ws_found))
         if stats:
             info += "; " + json.dumps(stats)
+        if re.search(r"test result: FAILED|\d+ failed;", out) and not ws_found:
+            info = "witness driver did not compile against the current tree or its own test failed: " + out[-400:]
         if "error: could not compile" in out or "error[E" in out:
             info = "witness driver did not compile against the current tree: " + "\n".join(l for l in out.split("\n") if l.startswith("error"))[:400]
         return ws_found, info
